@@ -86,6 +86,12 @@ func catalogue() []mistake {
 		{"func 2 params: callback second parameter of different size", func(b *mocker.Builder) error { b.Func(hw.F2p).Apply(func(a int, x int16) int { return 1 }); return nil }},
 		{"func 2 params: When with too few arguments", func(b *mocker.Builder) error { b.Func(hw.F2p).When(1).Return(5); return nil }},
 		{"func 2 results: Return with too few values", func(b *mocker.Builder) error { b.Func(hw.R2).Return(5); return nil }},
+		// an interface-typed result: a value that is no such interface (and has another size than an interface value)
+		{"func with an error result: Return value that does not implement error", func(b *mocker.Builder) error { b.Func(hw.E1).Return(5); return nil }},
+		{"func with an error result: Returns with a value that does not implement error in the second group", func(b *mocker.Builder) error {
+			b.Func(hw.E1).Returns(nil, 5)
+			return nil
+		}},
 		// zero of n, handed over as the spread of an empty (non-nil) list - a table of conditions sliced down to nothing
 		{"func 2 params: When with an empty list of arguments", func(b *mocker.Builder) error {
 			b.Func(hw.F2p).When([]interface{}{}...).Return(5)
